@@ -20,7 +20,7 @@ func init() {
 			"(6) the redis back-end reads the same options and maps must-not-exist to SetNX (not-ok -> ErrTTLKeyExists), keep-ttl to redis.KeepTTL, remove-after-get to GetDel, update-ttl to Expire, redis.Nil to ErrTTLKeyNotFound; (7) every time.Duration handed to redis that derives from a ttl (seconds, as fixed by now()+ttl with now()=Unix()) is multiplied by time.Second. " +
 			"NOT decided: behavioural agreement of the two back-ends over whole histories, redis server semantics, clock readings exactly on a deadline.",
 		Assumptions: []string{"container/list contract", "now() returns Unix seconds (read from its definition)", "go-redis command semantics"},
-		Floors:      map[string]int{"C05.guarded-by": 8, "C05.expiry-before-use": 2, "C05.index-list-coupled": 3, "C05.bound": 1, "C05.options": 4, "C05.deadline-fn": 1, "C05.redis-mapping": 5, "C05.ttl-unit": 3},
+		Floors:      map[string]int{"C05.guarded-by": 8, "C05.expiry-before-use": 2, "C05.index-list-coupled": 3, "C05.bound": 1, "C05.options": 4, "C05.deadline-fn": 1, "C05.redis-mapping": 5, "C05.ttl-unit": 3, "C05.ttl-source": 3},
 		Run:         runC05,
 	})
 }
@@ -670,6 +670,36 @@ func (x *ttlCtx) checkRedis() {
 					fromTTL = true
 				}
 			})
+			// the option's ttl as it stands at the call: last value stored to / loaded from the option's ttl
+			// cell, forgotten whenever the option object is handed to a callback (the option functions)
+			var cur, optBase *Sym
+			for j := 0; j < i; j++ {
+				x2 := t.Events[j]
+				switch {
+				case (x2.Kind == EvStore || x2.Kind == EvLoad) && (x2.Addr.isFieldAddrOf(x.sTTL) || x2.Addr.isFieldAddrOf(x.gTTL)):
+					optBase = x2.Addr.Args[0]
+					if x2.Kind == EvStore {
+						cur = x2.Val
+					} else {
+						cur = x2.Res
+					}
+				case x2.Kind == EvCall && optBase != nil:
+					for _, ca := range x2.Args {
+						if ca.Key() == optBase.Key() {
+							cur = nil
+						}
+					}
+				}
+			}
+			fromCur := false
+			if cur != nil {
+				a.walk(func(s *Sym) {
+					if s.Key() == cur.Key() {
+						fromCur = true
+					}
+				})
+			}
+			c.check(fromTTL && fromCur, "C05.ttl-source", cons+" "+cmdName(e), e.Pos, "the expiry handed to redis is computed from the per-call option's ttl as it stands after the option functions ran", "the expiry handed to redis is not computed from the per-call option's ttl as it stands after the option functions ran (the value the in-memory back-end uses for the same call): with a ttl option that differs from the cache default the two back-ends expire the key at different times", c.witness(t, i)...)
 			if !fromTTL {
 				continue
 			}
